@@ -387,9 +387,12 @@ fn check_tlp(c: &TlpCase) -> CaseResult {
             if missing.is_empty() { format!("c11/tlp:{l}:extra") } else { format!("c11/tlp:{l}:both") }
         } else if range_mismatch {
             format!("c11/tlp-range-path-int-float:{l}")
-        } else if c.lang == Lang::Sparql && contains_in(&c.pred) && missing == all {
+        // IN / unary minus on a bound (string-typed) binding is an evaluation error: the rows where the predicate is
+        // *known* to the reference are lost from both p and NOT p unless another operand decides the connective
+        // (rows where the variable is unbound land in the unknown part since the SPARQL FILTER error fixes)
+        } else if c.lang == Lang::Sparql && contains_in(&c.pred) && !missing.is_empty() && msub(&missing, &rows_known).is_empty() {
             "c11/tlp-sparql-in-unevaluated".to_string()
-        } else if c.lang == Lang::Sparql && contains_neg_of_prop(&c.pred) && missing == all {
+        } else if c.lang == Lang::Sparql && contains_neg_of_prop(&c.pred) && !missing.is_empty() && msub(&missing, &rows_known).is_empty() {
             "c11/tlp-sparql-neg-unevaluated".to_string()
         } else if c.lang == Lang::Sparql && mode == "3way" && !missing.is_empty() && msub(&missing, &rows_unknown).is_empty() {
             "c11/tlp-sparql-unbound-rows-lost".to_string()
